@@ -6,13 +6,14 @@ The expected address comes from vf/ref/C18_ref.py (integer arithmetic on the num
 notation denotes), never from pdu.py.
 
 Engine notes (see vf/ref/C18_sxmodels.py): CrossHair has no symbolic model of
-`int & MASK`, `int | MASK` (IP mask arithmetic) and of binascii.(un)hexlify; exact models
-are registered for the worker process of C18 obligations only.  `socket.inet_aton /
+`int & MASK`, `int | MASK` (IP mask arithmetic), of binascii.(un)hexlify and of
+str(octets, 'ascii'); exact models are registered for the worker process of C18
+obligations only.  `socket.inet_aton /
 inet_ntoa` are the stubs of vf/sx_stubs.py (canonical dotted quads only).
 """
 import socket
 
-from ..api import Inst, Violation, meta
+from ..api import HarnessError, Inst, Violation, meta
 from ..ref import C18_ref as R
 from ..ref import C18_sxmodels as _models
 
@@ -21,21 +22,26 @@ from bacpypes.pdu import (Address, LocalStation, RemoteStation, LocalBroadcast, 
                           GlobalBroadcast, pack_ip_addr, unpack_ip_addr)
 
 _models.install()       # no-op unless running inside the sx worker
+_bad = R.selftest()
+if _bad:
+    raise HarnessError("C18 reference model disagrees with ipaddress / the notation list: %r" % (_bad[:4],))
 
 STUBS = ["socket.inet_aton/inet_ntoa (canonical dotted quad <-> 4 octets)",
-         "C18 local engine models: int &,|,^ constant; binascii.hexlify/unhexlify (exact identities, "
-         "vf/ref/C18_sxmodels.py)"]
+         "C18 local engine models: int &,|,^ constant; binascii.hexlify/unhexlify; str(octets, 'ascii') "
+         "(exact identities, checked against the real operations at start-up: vf/ref/C18_sxmodels.py)"]
 ASSUMES = ["route suffixes ('@...') and settings.route_aware are outside the domain",
            "IPv4 text is canonical decimal (no leading zeros: the C inet_aton reads those as octal)"]
 
 
 # ---------------------------------------------------------------------------- text builders
-def dec(d, n, name, canonical=False):
-    """n symbolic decimal digits -> (number, text); canonical = no leading zero"""
+def dec(d, n, name, octet=False):
+    """n symbolic decimal digits -> (number, text).  octet: canonical text of an IPv4 octet
+    (no leading zero; a three-digit one starts with 1 or 2), else leading zeros included"""
     v = 0
     t = ''
     for i in range(n):
-        x = d.int(1 if (canonical and n > 1 and i == 0) else 0, 2 if (canonical and n == 3 and i == 0) else 9, '%s%d' % (name, i))
+        lead = octet and n > 1 and i == 0
+        x = d.int(1 if lead else 0, 2 if (lead and n == 3) else 9, '%s%d' % (name, i))
         v = v * 10 + x
         t = t + chr(48 + x)
     return v, t
@@ -79,7 +85,7 @@ def dotted(d, shape, name):
     t = ''
     ok = True
     for i, n in enumerate(shape):
-        v, s = dec(d, n, '%s%d_' % (name, i), canonical=True)
+        v, s = dec(d, n, '%s%d_' % (name, i), octet=True)
         if n == 3:
             ok = ok & (v <= 255)
         vals.append(v)
@@ -139,8 +145,8 @@ for _nn in (1, 2, 3, 4, 5, 6):
 @meta(bounds="shapes d{1,4} | d{1,6}:d{1,4} | d{1,6}:* | * | *:* ; every decimal digit symbolic (leading zeros "
              "included), so every station number 0..9999 and every network number 0..999999 in every digit count",
       outside="longer digit strings", stubs=[], assumes=ASSUMES[:1])
-def parse_short(d, group):
-    form, nn, ns = d.pick(SHORT_GROUPS[group], 'shape')
+def parse_short(d, groups):
+    form, nn, ns = d.pick([sh for g in groups for sh in SHORT_GROUPS[g]], 'shape')
     net = st = None
     if form in ("n:s", "n:*"):
         net, nt = dec(d, nn, 'n')
@@ -213,12 +219,18 @@ def check_ip_aux(a, octs, m, port, iptext=None, **ctx):
 
 
 @meta(bounds="[net:]a.b.c.d[/m][:port] ; digit count of each octet concrete (instance), every digit symbolic "
-             "(octets canonical decimal <= 255); m = every mask length of the instance's list (all 33 over the "
-             "instances) or absent; port = pd symbolic digits (<= 65535) or absent; net = nd symbolic digits",
+             "(octets canonical decimal <= 255); m = every mask length of the instance's list or absent; port = pd "
+             "symbolic digits (<= 65535, leading zeros included) or absent; net = nd symbolic digits.  quick: all "
+             "33 mask lengths and no mask on the shape ddd.ddd.ddd.ddd (octets 100..255), four other digit-count "
+             "shapes with 2-3 masks, ports of 1 and 5 digits, networks of 1 and 5 digits.  thorough: all 33 mask "
+             "lengths and no mask on 9 digit-count shapes in which every octet position takes every digit count, "
+             "all 81 digit-count shapes (= every IPv4 address) with no mask, /0 and /19, ports of 1..5 digits and "
+             "networks of 1..6 digits on four shapes",
       outside="octets > 255 / non-canonical octet text (refused by inet_aton, not part of the statement); ports > 65535; "
               "mask lengths > 32",
       stubs=STUBS, assumes=ASSUMES)
-def parse_ip(d, shape, masks, pd, nd):
+def parse_ip(d, shapes, masks, pd, nd):
+    shape = d.pick(shapes, 'shape')
     m = d.pick(masks, 'mask')            # None = no /m in the text
     net = None
     text = ''
@@ -364,6 +376,7 @@ RT_GROUPS = {
     "remote": [("remote", 1), ("remote", 2), ("remote", 3), ("remote", 4), ("remote", 5), ("remote", 6),
                ("remote", 7)],
     "remote-q": [("remote", 1), ("remote", 2), ("remote", 6), ("remote", 7)],
+    "remote-12": [("remote", 1), ("remote", 2)],
     "remote-ip": [("remote-ip", 6)],
     "rbcast": [("rbcast", 0)],
 }
@@ -380,7 +393,7 @@ def draw_net(d, nets):
              "for length 6 the last two octets outside 47808..47823), six-octet stations whose last two octets are a "
              "port 47808..47823 (printed dotted): port symbolic, the four IP octets picked from 8 boundary quads "
              "(thorough, local: 256 quads over {0,10,100,255}); networks picked from 14 boundary values (quick: 4) and, "
-             "thorough, every network of 0..300 and 65300..65534 ('%d' formatting of a symbolic integer makes the "
+             "thorough, every network of 0..300 and 65300..65534 (net:*), 0..120 and 65480..65534 (net:station) ('%d' formatting of a symbolic integer makes the "
              "engine enumerate, hence picks / small ranges); plus 29 literal notations (those of "
              "tests/test_pdu/test_address.py and mask / port / leading-zero variants)",
       outside="other networks / IP quads on the dotted and net: printing paths; the Null address (no notation "
@@ -442,6 +455,11 @@ def hashed(a):
     except Exception:
         h = None
     if isinstance(h, _Material):
+        if isinstance(h.m, tuple):
+            for part in h.m:
+                if isinstance(part, (bytearray, list, dict, set)):
+                    # the stand-in would hide it: hash() refuses mutable containers
+                    raise Violation("unhashable-address", text=str(a), part=type(part).__name__)
         return h.m
     return ("hash-value", a.__hash__())
 
@@ -488,9 +506,11 @@ def spellings(pool):
             ("bytes", L, lambda N: Address(bytes(N['octs']))),
             ("bytearray", L, lambda N: Address(bytearray(N['octs']))),
             ("LocalStation", L, lambda N: LocalStation(bytes(N['octs']))),
+            ("LocalStation-bytearray", L, lambda N: LocalStation(bytearray(N['octs']))),
             ("0x", L, lambda N: Address('0x' + hex_of(N['octs'], upper=True))),
             ("X'", L, lambda N: Address("X'" + hex_of(N['octs']) + "'")),
             ("RemoteStation", RS, lambda N: RemoteStation(N['net'], bytes(N['octs']))),
+            ("RemoteStation-bytearray", RS, lambda N: RemoteStation(N['net'], bytearray(N['octs']))),
             ("net:0x", RS, lambda N: Address(N['nt'] + ':0x' + hex_of(N['octs']))),
             ("net:X'", RS, lambda N: Address(N['nt'] + ":X'" + hex_of(N['octs'], upper=True) + "'")),
         ]
@@ -554,11 +574,12 @@ def same_denotation(p, q):
     return True
 
 
-@meta(bounds="three addresses a, b, c: a and b are two different spellings (i, j) of the same symbolic numbers N1, c "
-             "is spelling k of independent symbolic numbers N2 (network 0..65534, station octets 0..255 each, port "
+@meta(bounds="three addresses a, b, c: a and b are two different spellings (i, j) of the same symbolic numbers N1 "
+             "(quick: every spelling with the next one of its class, cyclically; thorough: every pair), c "
+             "is spelling k (quick: a representative of every class; thorough: all) of independent symbolic numbers N2 (network 0..65534, station octets 0..255 each, port "
              "0..65535, all via symbolic decimal digits); pool 'short' = 19 spellings of one-octet stations, "
              "net:station, net:*, * and *:* (int / decimal text / bytes / bytearray / typed constructors / 0x / X''), "
-             "pool 'long' = 8 spellings of an n-octet string, pool 'ip' = 12 spellings of a B/IP address (text, "
+             "pool 'long' = 10 spellings of an n-octet string, pool 'ip' = 12 spellings of a B/IP address (text, "
              "text with /24 and /0 mask, both tuple forms, six octets, hex, colon-separated hex, with and without "
              "network; octets 100..255 on this pool: three-digit canonical text).  The whole 3x3 matrix of == and != "
              "is evaluated: reflexive, symmetric, transitive, != is the negation, a == b holds exactly when the "
@@ -567,9 +588,9 @@ def same_denotation(p, q):
       stubs=STUBS + ["hash stand-in: Address.__hash__ evaluated with bacpypes.pdu.hash bound to a tagging "
                      "function (equal hashed material <=> equal hash, Python's hash being a function)"],
       assumes=ASSUMES)
-def equiv(d, pool, n, i, js, ks):
+def equiv(d, pool, n, pairs, ks):
     sp = spellings(pool)
-    j = d.pick(js, 'j')
+    i, j = d.pick(pairs, 'pair')
     k = d.pick(ks, 'k')
     N1 = numbers(d, pool, n, 'a')
     N2 = numbers(d, pool, n, 'c')
@@ -612,9 +633,9 @@ def concrete_pool():
     six2 = bytes([192, 168, 0, 10, 0xBA, 0xC1])
     return [
         [Address(5), Address("5"), Address("005"), Address(b'\x05'), Address(bytearray(b'\x05')), LocalStation(5),
-         LocalStation(b'\x05'), Address("0x05"), Address("X'05'")],
-        [Address("2:3"), RemoteStation(2, 3), RemoteStation(2, b'\x03'), Address("2:0x03"), Address("2:X'03'"),
-         Address("02:003")],
+         LocalStation(b'\x05'), LocalStation(bytearray(b'\x05')), Address("0x05"), Address("X'05'")],
+        [Address("2:3"), RemoteStation(2, 3), RemoteStation(2, b'\x03'), RemoteStation(2, bytearray(b'\x03')),
+         Address("2:0x03"), Address("2:X'03'"), Address("02:003")],
         [Address("2:*"), RemoteBroadcast(2)],
         [Address("*"), LocalBroadcast()],
         [Address("*:*"), GlobalBroadcast()],
@@ -631,7 +652,7 @@ def concrete_pool():
     ]
 
 
-@meta(bounds="12 groups of concrete spellings (50 addresses) taken from the literals of the repository's tests and "
+@meta(bounds="12 groups of concrete spellings (52 addresses) taken from the literals of the repository's tests and "
              "their other spellings; the pair is chosen by the engine, so every ordered pair is run (quick: every pair "
              "within a group, and every address against the first spelling of every other group)",
       outside="everything that is not one of these literals (the symbolic harness `equiv` covers the values)",
@@ -740,33 +761,39 @@ def _classes(pool):
     return out
 
 
-def _equiv_instances(pool, n, ks, every_pair, budget, chunk=1):
-    """one obligation per first spelling i; j = the next spelling of the same class
-    (every_pair: every later one, and the first one for the last), k from ks"""
-    out = []
+def _equiv_instances(pool, n, ks, every_pair, budget, per_inst, only=None):
+    """pairs (i, j) of spellings of one class: every spelling with the next one of its class
+    (cyclically), or every unordered pair; `per_inst` pairs per obligation; ks / only are
+    spelling names (None = all)"""
+    names = [x[0] for x in spellings(pool)]
+    ks = list(range(len(names))) if ks is None else [names.index(k) for k in ks]
+    pairs = []
     for cls, members in _classes(pool).items():
-        for pos, i in enumerate(members):
-            if len(members) == 1:
-                js = [i]
-            elif every_pair and pos + 1 < len(members):
-                js = members[pos + 1:]
-            else:
-                js = [members[(pos + 1) % len(members)]]
-            out.append(Inst(equiv, dict(pool=pool, n=n, i=i, js=js, ks=ks), budget=budget,
-                            label="%s%s,%s" % (pool, n if pool == "long" else "", spellings(pool)[i][0])))
+        if only is not None:
+            members = [m for m in members if names[m] in only]
+        if len(members) == 1:
+            pairs.append([members[0], members[0]])
+        elif every_pair or len(members) == 2:
+            pairs += [[a, b] for x, a in enumerate(members) for b in members[x + 1:]]
+        else:
+            pairs += [[a, members[(x + 1) % len(members)]] for x, a in enumerate(members)]
+    out = []
+    for part in range(0, len(pairs), per_inst):
+        out.append(Inst(equiv, dict(pool=pool, n=n, pairs=pairs[part:part + per_inst], ks=ks), budget=budget,
+                        label="%s%s,pairs%d" % (pool, n if pool == "long" else "", part // per_inst)))
     return out
 
 
 def instances(tier):
     q = tier == "quick"
     out = []
-    B = 120 if q else 600
+    B = 150 if q else 600
 
     # 1. short text forms
-    out.append(Inst(parse_short, dict(group="station"), budget=B))
-    out.append(Inst(parse_short, dict(group="net:*"), budget=B))
-    for nn in (1, 2, 3, 4, 5, 6):
-        out.append(Inst(parse_short, dict(group="net%d:station" % nn), budget=B))
+    out.append(Inst(parse_short, dict(groups=["station", "net:*"]), budget=B, label="station,net:*"))
+    for nns in ((1, 2, 3), (4, 5), (6,)):
+        out.append(Inst(parse_short, dict(groups=["net%d:station" % nn for nn in nns]), budget=B,
+                        label="net%s:station" % "".join(map(str, nns))))
 
     # 2. hex text forms
     ns = (1, 2, 4, 7) if q else (1, 2, 3, 4, 5, 6, 7)
@@ -775,37 +802,40 @@ def instances(tier):
     out.append(Inst(parse_hex, dict(cases=[[f, n, 0] for f in ("0x", "X'") for n in ns]), budget=B, label="local"))
     out.append(Inst(parse_hex, dict(cases=[["ether", 6, 0]]), budget=B, label="ether"))
     for f in ("0x", "X'"):
-        for nd in nds:
-            out.append(Inst(parse_hex, dict(cases=[[f, n, nd] for n in rn]), budget=B, label="net%d:%s" % (nd, f)))
+        if q:
+            out.append(Inst(parse_hex, dict(cases=[[f, n, nd] for n in rn for nd in nds]), budget=B, label="net:%s" % f))
+        else:
+            for nd in nds:
+                out.append(Inst(parse_hex, dict(cases=[[f, n, nd] for n in rn]), budget=B, label="net%d:%s" % (nd, f)))
 
     # 3. dotted IPv4: every mask length on the mixed digit-count shapes, every digit-count
     #    shape on a few mask lengths; ports and networks on some shapes
     if q:
-        for part in range(3):
-            out.append(Inst(parse_ip, dict(shape=[3, 3, 3, 3], masks=ALL_MASKS[part::3], pd=0, nd=0), budget=B,
+        for part in range(4):
+            out.append(Inst(parse_ip, dict(shapes=[[3, 3, 3, 3]], masks=ALL_MASKS[part::4], pd=0, nd=0), budget=B + 20,
                             label="3333,masks%d" % part))
-        out.append(Inst(parse_ip, dict(shape=[1, 1, 1, 1], masks=[None, 0, 32], pd=0, nd=0), budget=B, label="1111"))
-        out.append(Inst(parse_ip, dict(shape=[2, 2, 2, 2], masks=[None, 9], pd=5, nd=5), budget=B, label="2222,port,net"))
-        out.append(Inst(parse_ip, dict(shape=[1, 2, 3, 1], masks=[None, 16], pd=5, nd=0), budget=B, label="1231,port"))
-        out.append(Inst(parse_ip, dict(shape=[3, 2, 1, 3], masks=[None, 25], pd=1, nd=1), budget=B, label="3213,port1,net1"))
+        out.append(Inst(parse_ip, dict(shapes=[[1, 1, 1, 1]], masks=[None, 0, 32], pd=0, nd=0), budget=B, label="1111"))
+        out.append(Inst(parse_ip, dict(shapes=[[2, 2, 2, 2]], masks=[None, 9], pd=5, nd=5), budget=B, label="2222,port,net"))
+        out.append(Inst(parse_ip, dict(shapes=[[1, 2, 3, 1]], masks=[None, 16], pd=5, nd=0), budget=B, label="1231,port"))
+        out.append(Inst(parse_ip, dict(shapes=[[3, 2, 1, 3]], masks=[None, 25], pd=1, nd=1), budget=B, label="3213,port1,net1"))
     else:
         for sh in MIX_SHAPES:
             for part in range(2):
-                out.append(Inst(parse_ip, dict(shape=sh, masks=ALL_MASKS[part::2], pd=0, nd=0), budget=B,
+                out.append(Inst(parse_ip, dict(shapes=[sh], masks=ALL_MASKS[part::2], pd=0, nd=0), budget=B,
                                 label="%d%d%d%d,masks%d" % (tuple(sh) + (part,))))
-        for sh in ALL_SHAPES:
-            if sh not in MIX_SHAPES:
-                out.append(Inst(parse_ip, dict(shape=sh, masks=[None, 0, 19, 32], pd=0, nd=0), budget=B,
-                                label="%d%d%d%d" % tuple(sh)))
+        rest = [sh for sh in ALL_SHAPES if sh not in MIX_SHAPES]
+        for part in range(0, len(rest), 3):
+            out.append(Inst(parse_ip, dict(shapes=rest[part:part + 3], masks=[None, 0, 19], pd=0, nd=0), budget=B,
+                            label="shapes%d" % (part // 3)))
         for pd in (1, 2, 3, 4, 5):
-            out.append(Inst(parse_ip, dict(shape=[3, 3, 3, 3], masks=[None, 0, 8, 31], pd=pd, nd=0), budget=B,
+            out.append(Inst(parse_ip, dict(shapes=[[3, 3, 3, 3]], masks=[None, 0, 8, 31], pd=pd, nd=0), budget=B,
                             label="3333,port%d" % pd))
-            out.append(Inst(parse_ip, dict(shape=[1, 2, 3, 1], masks=[None, 24], pd=pd, nd=6 - pd), budget=B,
+            out.append(Inst(parse_ip, dict(shapes=[[1, 2, 3, 1]], masks=[None, 24], pd=pd, nd=6 - pd), budget=B,
                             label="1231,port%d,net%d" % (pd, 6 - pd)))
         for nd in (1, 2, 3, 4, 5, 6):
-            out.append(Inst(parse_ip, dict(shape=[2, 3, 1, 2], masks=[None, 13], pd=0, nd=nd), budget=B,
+            out.append(Inst(parse_ip, dict(shapes=[[2, 3, 1, 2]], masks=[None, 13], pd=0, nd=nd), budget=B,
                             label="2312,net%d" % nd))
-            out.append(Inst(parse_ip, dict(shape=[3, 3, 3, 3], masks=[None, 30], pd=5, nd=nd), budget=B,
+            out.append(Inst(parse_ip, dict(shapes=[[3, 3, 3, 3]], masks=[None, 30], pd=5, nd=nd), budget=B,
                             label="3333,port5,net%d" % nd))
 
     # 4. non-text forms
@@ -825,19 +855,23 @@ def instances(tier):
         for lo, hi in ((0, 300), (65300, 65534)):
             out.append(Inst(roundtrip, dict(group="rbcast", nets=["range", lo, hi], quads="Q"), budget=B,
                             label="rbcast,%d..%d" % (lo, hi)))
-            out.append(Inst(roundtrip, dict(group="remote-q", nets=["range", lo, hi], quads="Q"), budget=B,
+        for lo, hi in ((0, 120), (65480, 65534)):
+            out.append(Inst(roundtrip, dict(group="remote-12", nets=["range", lo, hi], quads="Q"), budget=B,
                             label="remote,%d..%d" % (lo, hi)))
 
     # 6. equality / hash
     if q:
-        out += _equiv_instances("short", 1, [0, 1, 6, 8, 9, 11, 13, 14, 15, 17], False, B)
-        out += _equiv_instances("long", 3, [0, 3, 5, 6], False, B)
-        out += _equiv_instances("ip", 6, [5], False, B)
+        out += _equiv_instances("short", 1, ["int", "dec", "0x", "net:dec", "RemoteStation-int", "net:0x", "net:*",
+                                             "RemoteBroadcast", "*", "*:*"], False, B + 10, 3)
+        out += _equiv_instances("long", 3, ["bytes", "RemoteStation", "net:0x"], False, B + 10, 3)
+        out += _equiv_instances("ip", 6, ["bytes"], False, B + 20, 1,
+                                only=["text", "text/24", "tuple-text", "tuple-number", "bytes", "0x", "net:text",
+                                      "RemoteStation"])
     else:
-        out += _equiv_instances("short", 1, list(range(19)), True, B)
+        out += _equiv_instances("short", 1, None, True, B, 2)
         for n in (2, 3, 5, 7):
-            out += _equiv_instances("long", n, list(range(8)), True, B)
-        out += _equiv_instances("ip", 6, [5, 10], True, B)
+            out += _equiv_instances("long", n, None, True, B, 3)
+        out += _equiv_instances("ip", 6, ["bytes", "RemoteStation"], True, B, 1)
 
     # 7. dictionary slot
     if q:
@@ -851,7 +885,7 @@ def instances(tier):
     for part in range(3 if q else 6):
         out.append(Inst(junk, dict(ts=T[part::3 if q else 6], mode="outside"), budget=B, label="outside,part%d" % part))
     inside = [1, 2, 4, 5, 6, 7, 14, 16] if q else T
-    parts = 4 if q else 12
+    parts = 6 if q else 12
     for part in range(parts):
         out.append(Inst(junk, dict(ts=inside[part::parts], mode="inside"), budget=B, label="inside,part%d" % part))
     return out
